@@ -132,6 +132,171 @@ def _position_source(item):
     return None
 
 
+def _folded_tiling(item, ce, test, datap, f0, p2, p3, rep):
+    """decide tiling and last-flag of a fragmenter whose (chunk, has-next) pairs are items of one sequence term, by folding
+    that term on the boundary grid; returns the width term"""
+    from ..arith import CannotEvaluate, eval_iter, eval_value
+    src = item.args[0]
+    # the width: the data is cut by slices data[X:X + W]
+    w_node = None
+    for n in ast.walk(src):
+        if isinstance(n, ast.Subscript) and norm(n.value) == datap and isinstance(n.slice, ast.Slice) and n.slice.step is None \
+                and n.slice.lower is not None and isinstance(n.slice.upper, ast.BinOp) and isinstance(n.slice.upper.op, ast.Add):
+            if norm(n.slice.upper.left) == norm(n.slice.lower):
+                w_node = n.slice.upper.right
+            elif norm(n.slice.upper.right) == norm(n.slice.lower):
+                w_node = n.slice.upper.left
+    if w_node is None:
+        raise AnalysisError('%s: no slice data[p:p + width] of the data in the sequence the fragments are taken from (%s)'
+                            % (f0.loc(), norm(src)[:120]))
+    canon = lambda e: _replace_subtree(_replace_subtree(e, item, '__item__'), w_node, '__w__') if not isinstance(w_node, ast.Constant) \
+        else _replace_subtree(e, item, '__item__')
+    src_c = _replace_subtree(src, w_node, '__w__') if not isinstance(w_node, ast.Constant) else src
+    ce_c, test_c = canon(ce), canon(test)
+    bad2 = bad3 = None
+    try:
+        for size_v in range(1, 7):
+            if isinstance(w_node, ast.Constant) and w_node.value != size_v:
+                continue
+            for length_v in range(0, 4 * size_v + 2):
+                data = bytes(bytearray((i * 7 + 1) % 251 for i in range(length_v)))
+                env = {datap: data, '__w__': size_v}
+                got = []
+                for it in eval_iter(src_c, env, limit=64):
+                    env2 = dict(env, __item__=it)
+                    got.append((eval_value(ce_c, env2), bool(eval_value(test_c, env2))))
+                want = [(data[i:i + size_v], i + size_v < length_v) for i in range(0, length_v, size_v)]
+                if [g[0] for g in got] != [w[0] for w in want] and bad2 is None:
+                    bad2 = (length_v, size_v, [len(g[0]) if isinstance(g[0], bytes) else g[0] for g in got], [len(w[0]) for w in want])
+                if [g[1] for g in got] != [w[1] for w in want] and bad3 is None and [g[0] for g in got] == [w[0] for w in want]:
+                    bad3 = (length_v, size_v, [g[1] for g in got], [w[1] for w in want])
+    except CannotEvaluate as exc:
+        raise AnalysisError('%s: the sequence the fragments are taken from cannot be folded (%s): %s' % (f0.loc(), exc, norm(src)[:120]))
+    if bad2 is not None:
+        p2.append('a sequence of %d bytes cut with width %d comes out as chunks of lengths %s, the tiling is %s'
+                  % (bad2[0], bad2[1], bad2[2], bad2[3]))
+    if bad3 is not None:
+        p3.append('has-next flags for a sequence of %d bytes cut into %d-byte chunks are %s, must be %s (only the final chunk is '
+                  'not followed by another)' % (bad3[0], bad3[1], bad3[2], bad3[3]))
+    if rep is not None and bad2 is None and bad3 is None:
+        rep.notes['chunks_sequence'] = 'tiling and flags decided by folding the sequence term %s on the boundary grid' % norm(src_c)[:160]
+    return norm(w_node)
+
+
+def read_ahead_fragmenter(repo, f, hier):
+    """The file fragmenter written as a one-block read-ahead (``cur = read(w)`` ... ``while cur: nxt = read(w); yield cur, nxt
+    non-empty; cur = nxt``) instead of peek-one-byte-and-seek-back.  Decided inductively on the loop:
+
+    * entry: the carried variable holds the first block read with width w, or the end marker when that read was empty;
+    * an arbitrary iteration, started with the carried block C: exactly one further read of width w happens, the yield hands out
+      C itself with has-next true exactly on the path where the new read is non-empty, and at the end of the iteration the
+      carried variable is the new block (end marker when it was empty);
+    * the loop goes on exactly while the carried variable is not the end marker.
+    -> None when the function is not of this form, else (p2, p3, p4, width terms, flag use)."""
+    from ..flow import Flow
+    from ..sym import SymState
+    fp = f.params[0]
+    normal_p, last_p = f.params[2], f.params[3]
+    loops = [n for n in ast.walk(f.node) if isinstance(n, ast.While) and any(isinstance(y, ast.Yield) for y in ast.walk(n))]
+    if len(loops) != 1:
+        return None
+    loop = loops[0]
+    test_names = {n.id for n in ast.walk(loop.test) if isinstance(n, ast.Name)}
+    carried = sorted(n for n in test_names if any(isinstance(y, ast.Name) and y.id == n and isinstance(y.ctx, ast.Store)
+                                                  for b in loop.body for y in ast.walk(b)))
+    if len(carried) != 1:
+        return None
+    cur = carried[0]
+
+    def fresh(call, callee, client, state):
+        return 'RD' if callee == fp + '.read' else None
+    c = SymClient(repo, f, event_of=ev_kind, hierarchy=hier, fresh_of=fresh)
+    c.run(empty_state())
+    entries = [st for ev, st in c.log if ev.kind == 'loop' and ev.line == loop.lineno]
+    if not entries:
+        return None
+    p2, p3, p4 = [], [], []
+    wterms = set()
+    reads_of = lambda trail: [e for e in trail if e.kind == 'fp.read']
+    tok_of = lambda e: dict(e.kwargs).get('=')
+    is_empty = lambda conds, t: any(x in ("+%s == b''" % t, '-' + t, "-%s != b''" % t, '+not ' + t) for x in conds)
+    non_empty = lambda conds, t: any(x in ("-%s == b''" % t, '+' + t, "+%s != b''" % t, '-not ' + t) for x in conds)
+    # ---- entry
+    first_w = None
+    for st in entries:
+        v = st.get(cur)
+        rds = reads_of(st.trail)
+        if len(rds) != 1:
+            return None
+        t0 = tok_of(rds[0])
+        first_w = rds[0].args[0] if rds[0].args else None
+        wterms.add((first_w, rds[0].conds))
+        if v == t0 and not is_empty(st.conds, t0):
+            continue
+        if v == 'None' and is_empty(st.conds, t0):
+            continue
+        p2.append('before the loop %s is %s on a path with %s: not "the first block, or the end marker when the first read was empty"'
+                  % (cur, v, ' '.join(x for x in st.conds if t0 in x) or 'no test of the first read'))
+    # ---- an arbitrary iteration
+    flow = Flow(c)
+    start = set()
+    for st in entries:
+        start.add(SymState(st.env, st.heap, tuple(x for x in st.conds if 'RD_' not in x), (), None).set(cur, 'PRE_' + cur))
+    t_states, _f_states, _exc = flow.cond(loop.test, start)
+    if not t_states:
+        return None
+    o = flow.run(loop.body, t_states)
+    ends = list(o.fall) + list(o.cont)
+    if not ends or o.brk or o.ret:
+        return None
+    n_paths = 0
+    for s_ in ends:
+        n_paths += 1
+        ys = [e for e in s_.trail if e.kind == 'yield']
+        rds = reads_of(s_.trail)
+        if len(ys) != 1 or len(ys[0].args) != 2:
+            p4.append('an iteration yields %d times' % len(ys))
+            continue
+        if len(rds) != 1 or s_.trail.index(rds[0]) > s_.trail.index(ys[0]):
+            p3.append('an iteration does not read exactly one block ahead before it yields (%d reads)' % len(rds))
+            continue
+        nt = tok_of(rds[0])
+        wterms.add((rds[0].args[0], rds[0].conds))
+        if rds[0].args[0] != first_w:
+            p2.append('the first block is read with width %s, later blocks with %s' % (first_w, rds[0].args[0]))
+        if ys[0].args[0] != 'PRE_' + cur:
+            p4.append('yielded fragment %s is not the block carried into the iteration' % ys[0].args[0])
+        flag = ys[0].args[1]
+        emp, non = is_empty(s_.conds, nt), non_empty(s_.conds, nt)
+        if not (emp or non):
+            p3.append('the block read ahead is not tested for being empty')
+            continue
+        want = last_p if emp else normal_p
+        if flag != want:
+            try:
+                fe = ast.parse(flag, mode='eval').body
+            except SyntaxError:
+                fe = None
+            ok_ = False
+            if isinstance(fe, ast.IfExp) and norm(fe.body) == normal_p and norm(fe.orelse) == last_p:
+                tt = norm(fe.test)
+                ok_ = (tt in ('%s is not None' % nt, nt, "%s != b''" % nt) and non) or (tt in ('None is not None', 'False') and emp)
+            if not ok_:
+                p3.append('on the path where the block read ahead is %s the fragment is flagged %s, must be %s'
+                          % ('empty' if emp else 'not empty', flag, want))
+        after = s_.get(cur)
+        if not ((emp and after == 'None') or (non and after == nt)):
+            p2.append('at the end of an iteration %s is %s where the block read ahead was %s: a block is lost or handed out twice'
+                      % (cur, after, 'empty' if emp else 'not empty'))
+    # ---- the loop test: goes on exactly while the carried variable is not the end marker
+    tt = norm(loop.test)
+    if tt not in ('%s is not None' % cur, cur, 'not %s is None' % cur, '%s != None' % cur):
+        p2.append('the loop test %s is not "the carried block is not the end marker"' % tt)
+    if any(e.kind == 'fp.seek' for ev_, st_ in c.log for e in st_.trail):
+        p3.append('the stream is repositioned although blocks are read ahead')
+    return sorted(set(p2)), sorted(set(p3)), sorted(set(p4)), wterms, 'normal-if-has-next', n_paths
+
+
 def bytes_fragmenter(repo, hier, rep=None):
     """The bytes fragmenter as one loop: ``fragment`` with the ``chunks`` generator fused in (whether the tree keeps them apart
     or has merged them), abstractly interpreted; every yielded (chunk, flag) pair is decomposed into position / width / stop of
@@ -203,6 +368,13 @@ def bytes_fragmenter(repo, hier, rep=None):
             p4.append('flag expression %s is not "normal if has_next else last"' % ev.args[1])
             continue
         flaguse = 'normal-if-has-next'
+        # ---- pairs taken whole from one sequence term (zip / chain / repeat pipelines): folded on the boundary grid
+        all_items = [n for e_ in (ce, test) for n in ast.walk(e_) if isinstance(n, ast.Call) and isinstance(n.func, ast.Name)
+                     and n.func.id == 'ITEM' and len(n.args) == 1]
+        if all_items and len({norm(n) for n in all_items}) == 1 and _position_source(all_items[0]) is None:
+            w_term = _folded_tiling(all_items[0], ce, test, datap, f0, p2, p3, rep)
+            widths.add((w_term, ev.conds))
+            continue
         # ---- the chunk: data[pos:pos + width] with pos from range(0, len(data), width)
         if not (isinstance(ce, ast.Subscript) and isinstance(ce.slice, ast.Slice) and ce.slice.step is None):
             p2.append('chunk %s is not a slice of the sequence' % ev.args[0])
@@ -218,6 +390,14 @@ def bytes_fragmenter(repo, hier, rep=None):
             if src is not None:
                 break
         if src is None:
+            all_items = [n for e_ in (ce, test) for n in ast.walk(e_) if isinstance(n, ast.Call) and isinstance(n.func, ast.Name)
+                         and n.func.id == 'ITEM' and len(n.args) == 1]
+            if all_items and len({norm(n) for n in all_items}) == 1:
+                # the pairs come from one sequence term (zip / chain / repeat / islice pipelines ..): the term is folded at every
+                # (length, width) of the boundary grid and compared, item by item, with the tiling it must produce
+                w_term = _folded_tiling(all_items[0], ce, test, datap, f0, p2, p3, rep)
+                widths.add((w_term, ev.conds))
+                continue
             if items:
                 raise AnalysisError('%s: the positions the chunks are cut at come from %s, which is neither range(start, stop, step) '
                                     'nor islice(count(start, step), n) (optionally enumerated)' % (f0.loc(), norm(items[0].args[0])))
@@ -410,9 +590,16 @@ def run(repo, rep):
             n_y = 1
             log = []
         else:
-            c = SymClient(repo, f, event_of=ev_kind, hierarchy=hier)
-            fin = c.final_states(c.run(empty_state()))
-            log = c.log
+            ra = read_ahead_fragmenter(repo, f, hier)
+            if ra is not None:
+                p2, p3, p4, wterms, flaguse[fname], n_y = list(ra[0]), list(ra[1]), list(ra[2]), set(ra[3]), ra[4], ra[5]
+                rep.notes['fragment_file'] = 'one-block read-ahead form: decided inductively on the loop (%d iteration paths)' % n_y
+                n_y = max(n_y, 1)
+                log = []
+            else:
+                c = SymClient(repo, f, event_of=ev_kind, hierarchy=hier)
+                fin = c.final_states(c.run(empty_state()))
+                log = c.log
         for ev, s in log:
             if True:
                 i = len(s.trail)
